@@ -12,6 +12,7 @@ EVAL_STUBS = '''// ---- assumed callee contracts of Function::evaluate_bound (T5
 // term iterator `&Function: IntoIterator<Item = (SortedIds, f64)>` (linear.rs / quadratic.rs / polynomial.rs into_iter, Box<dyn Iterator>): the (ids, coefficient)
 // pairs sum to the represented polynomial, coefficients are those of the message (finite when the message is), ids are ids of the function
 #[verifier::external_body] pub fn function_terms(f: &Function) -> (r: Vec<(SortedIds, F64)>)
+    requires fn_coo_ok(*f)      // IntoIterator for &Quadratic asserts equal COO lengths
     ensures forall|m: Map<u64, F64>| #![trigger tsum(r@, r.len() as int, m)] fn_val(*f, m) == tsum(r@, r.len() as int, m),
         fn_fin(*f) ==> forall|i: int| 0 <= i < r.len() ==> fin((#[trigger] r[i]).1),
         forall|i: int, j: int| 0 <= i < r.len() && 0 <= j < r[i].0@.len() ==> fn_ids(*f).contains(#[trigger] r[i].0@[j]),
@@ -34,7 +35,8 @@ def evaluate_bound():
                 wrap=('impl Function {', '}'), anyhow=False,
                 header='''#[verifier::loop_isolation(false)]
 pub fn evaluate_bound(&self, bounds: &Bounds) -> (r: Bound)
-    requires bounds_wf(bounds@), fn_fin(*self), small_degree(*self),
+    // observation: the term iterator panics on a Quadratic whose COO arrays differ in length
+    requires bounds_wf(bounds@), fn_fin(*self), small_degree(*self), fn_coo_ok(*self),
     ensures r.wf(), forall|m: Map<u64, F64>| #![trigger fn_val(*self, m)] in_box(m, bounds@, fn_ids(*self)) ==> contains(r, fn_val(*self, m)),''',
                 rsubs=[(r'self\.into_iter\(\)', 'function_terms(self)', 1),
                        (r'bounds\.get\(&id\.into\(\)\)\.cloned\(\)\.unwrap_or_default\(\)', 'bounds.get(&VariableID(id)).copied().unwrap_or(Bound::default())', 1)],
@@ -131,6 +133,6 @@ proof fn vacuity_wf(a: Bound, b: Bound) requires a.wf(), b.wf() { assert(false);
             'T4: #[derive(PartialEq)] on Bound is field-wise IEEE equality (generated external_body impl)',
             'num::Zero is modelled by a local trait with the same two methods',
         ],
-        assumptions=common.A1,
+        assumptions=common.A1 + common.A_COO,
         not_covered=['Bound::arbitrary_containing / Arbitrary (test generators)', 'Display', 'as_range', 'PartialOrd<f64> for Bound (only partial_cmp is defined; Verus has no spec for the derived comparison methods)'],
     )
